@@ -193,7 +193,7 @@ class C15(Check):
         # formatter, and parse of what the formatter writes
         vals = set([0, 1, 9, 10, 11, 99, 100, 999, 1000, 10**6 - 1, 10**6, 10**9, 10**12 - 1, 10**12, 10**12 + 1, 123456789012345,
                     I_MAX - 1, I_MAX, I_MAX + 1, 2**64 - 1, 2**64 - 2, 10**19, 10**18, 5 * 10**11])
-        for _ in range(1500 if tier == "quick" else 60000):
+        for _ in range(1500 if tier == "quick" else 10000):
             vals.add(rng.getrandbits(rng.choice([4, 10, 20, 30, 40, 41, 50, 62, 63, 64])))
         for v in sorted(vals):
             for d in dens:
